@@ -2,6 +2,7 @@ package c05
 
 import (
 	"fmt"
+	"regexp"
 	"strings"
 	"testing"
 	"unicode/utf8"
@@ -23,6 +24,33 @@ type fataler interface {
 }
 
 // roundTrip: print -> parse -> print is a fixpoint and keeps the tree (modulo GroupExpr)
+// K-C05-1: an empty statement directly in front of else (";; else", "}; else") is swallowed and the else goes to the outer if:
+// such inputs are excluded while the finding is listed
+var danglingElseRe = regexp.MustCompile(`[;}]\s*;\s*else\b`)
+
+func excludedKnown(src string) bool {
+	_, listed := ev.KnownFindings("C05")["K-C05-1"]
+	return listed && danglingElseRe.MatchString(src)
+}
+
+func TestKnown_DanglingElse(t *testing.T) {
+	src := "if (a) if (b) c;; else d"
+	ast, err := js.Parse(parse.NewInputString(src), js.Options{})
+	if err != nil {
+		return // rejected, as ECMAScript says: repaired
+	}
+	out := ast.JSString()
+	ast2, err := js.Parse(parse.NewInputString(out), js.Options{})
+	if err == nil && ast2.String() == ast.String() {
+		return // repaired
+	}
+	if _, listed := ev.KnownFindings("C05")["K-C05-1"]; listed {
+		ev.ReportKnown("C05", "K-C05-1", "\"if (a) if (b) c;; else d\" is accepted with the else on the outer if, the printed text \"if (a) if (b) c; else d\" binds it to the inner one")
+	} else {
+		t.Errorf("K-C05-1: %q prints as %q, which parses to another tree", src, out)
+	}
+}
+
 func roundTrip(t fataler, src string, o js.Options, ast *js.AST) string {
 	out := ast.JSString()
 	ast2, err := js.Parse(parse.NewInputString(out), o)
@@ -166,6 +194,10 @@ func TestProp_Corpus(t *testing.T) {
 		ast, err := js.Parse(parse.NewInputString(src), o)
 		if err != nil {
 			ev.Case("corpus", src, false, "rejected")
+			return
+		}
+		if excludedKnown(src) {
+			ev.Excluded("corpus", "K-C05-1")
 			return
 		}
 		out := roundTrip(t, src, o, ast)
